@@ -1,18 +1,18 @@
 package main
 
-// e2e.go — end-to-end part of hC03: ONE eCorpus -> three forms of the same fraction built by the
+// e2e.go — end-to-end part of hC03: ONE corpus -> three forms of the same fraction built by the
 // REAL code: (A) active, (S) sealed from PreloadedData on the same manager, (R) sealed loaded from
 // its files by a second FracManager (possibly another CacheSize). The same batch of requests goes
 // to A, S, R; every request gives one case
 //
 //	CForm <kind>%N [active]%N [sealed]%N [reloaded]%N [oracle]%N
 //
-// where the four lists are the canonical answers (see canonSearch/canonFetch/compress) and the
+// where the four lists are the canonical answers (see eAnswer.canon / eCanonFetch / eCompress) and the
 // oracle is computed by brute force from the document list only (no /repo code involved).
 // kind: 1 search desc, 2 search asc, 3 histogram, 4 aggregation (count group by), 5 fetch.
 //
 // Oracle independence: search, histogram, count-aggregation and fetch all have an independent
-// oracle. Two deliberate omissions from the canonical eAnswer (so that the oracle stays exact):
+// oracle. Two deliberate omissions from the canonical answer (so that the oracle stays exact):
 //   - fetch lists with a repeated ID: the real Fetcher delivers the document at ONE of the
 //     positions of that ID (reversPos keeps the last); which position is a C04 matter, so every
 //     position of a repeated ID shows the document delivered at any of its positions;
@@ -423,6 +423,14 @@ func eErrList(err error) []uint64 {
 	return []uint64{999999, class}
 }
 
+// ePanicText: the store's searcher/fetcher turn a panic inside a fraction into an error; still a panic of that form.
+func ePanicText(err error) string {
+	if strings.Contains(err.Error(), "panicked") {
+		return err.Error()
+	}
+	return ""
+}
+
 func eLiteral(field string) *parser.Literal {
 	return &parser.Literal{Field: field, Terms: []parser.Term{{Kind: parser.TermSymbol, Data: "*"}}}
 }
@@ -441,7 +449,7 @@ func eAsk(fracs fracmanager.List, m seq.Mapping, q *ereq) (out []uint64, what st
 		}
 		docs, err := fracbuild.Fetch(fracs, ids)
 		if err != nil {
-			return eErrList(err), ""
+			return eErrList(err), ePanicText(err)
 		}
 		return eCanonFetch(q.IDs, docs), ""
 	}
@@ -452,7 +460,7 @@ func eAsk(fracs fracmanager.List, m seq.Mapping, q *ereq) (out []uint64, what st
 	}
 	qpr, err := fracbuild.Search(fracs, fq, 0)
 	if err != nil {
-		return eErrList(err), ""
+		return eErrList(err), ePanicText(err)
 	}
 	a := eAnswer{total: qpr.Total}
 	for _, id := range qpr.IDs {
